@@ -243,6 +243,9 @@ class Stack(Model):
     def __len__(self):
         return len(self.elems)
 
+    def __iter__(self):
+        return iter(list(self.elems))          # iterating an array yields its slots along the first axis
+
     def __getitem__(self, idx):
         if isinstance(idx, tuple):
             first, rest = idx[0], idx[1:]
